@@ -40,6 +40,10 @@ type lifeBehaviour struct {
 type lifeScenario struct {
 	Script   map[string][]string `json:"script"`
 	Remoting bool                `json:"remoting"`
+	// SlowMS > 0: one actor of the tree sleeps that long in its OnKill handler (slow to terminate);
+	// StopTimeoutMS is then the time-out passed to Stop (0 and negative values mean "time out at once")
+	SlowMS        int `json:"slow_ms,omitempty"`
+	StopTimeoutMS int `json:"stop_timeout_ms,omitempty"`
 }
 
 func classifyLifeErr(err error) string {
@@ -162,16 +166,26 @@ func runLifeScenario(sc *lifeScenario, schedule []lifeStep, seed int64) *lifeRun
 					if err == nil && !stopping.Load() {
 						// a small tree: one parent with two children
 						_, _ = sys.ActorOf(vivid.ActorFN(func(actx vivid.ActorContext) {
-							if _, ok := actx.Message().(*vivid.OnLaunch); ok {
+							switch actx.Message().(type) {
+							case *vivid.OnLaunch:
 								for k := 0; k < 2; k++ {
 									_, _ = actx.ActorOf(vivid.ActorFN(func(vivid.ActorContext) {}))
+								}
+							case *vivid.OnKill:
+								if sc.SlowMS > 0 {
+									time.Sleep(time.Duration(sc.SlowMS) * time.Millisecond)
 								}
 							}
 						}))
 					}
 				case "stop":
 					ev(map[string]any{"e": "Call", "p": name, "op": "stop"})
-					err := sys.Stop()
+					var err error
+					if sc.SlowMS > 0 {
+						err = sys.Stop(time.Duration(sc.StopTimeoutMS) * time.Millisecond)
+					} else {
+						err = sys.Stop()
+					}
 					ev(map[string]any{"e": "Ret", "p": name, "op": "stop", "r": classifyLifeErr(err)})
 				case "cancel":
 					c.Yield("h.cancel", sys, nil)
@@ -285,9 +299,15 @@ func runLifeScenario(sc *lifeScenario, schedule []lifeStep, seed int64) *lifeRun
 		if w.Point == "sys.stop.kill" {
 			stopping.Store(true)
 		}
+		t1 := time.Now()
 		c.Release(w)
 		run.Steps++
-		if !settle(w.Role) {
+		ok := settle(w.Role)
+		if w.Point == "sys.stop.wait" && sc.SlowMS > 0 && w.Role != "guardian" {
+			// how long the call stayed in its wait for the tree: bounded by the time-out it was given
+			ev(map[string]any{"e": "StopWaited", "p": w.Role, "alive": int(time.Since(t1).Milliseconds()), "gor": sc.StopTimeoutMS})
+		}
+		if !ok {
 			break
 		}
 	}
@@ -382,6 +402,11 @@ func checkC07(c *core.Ctx) {
 	}
 	for i := 0; i < nRandom; i++ {
 		sc := &lifeScenario{Script: map[string][]string{}, Remoting: rng.Intn(6) == 0}
+		if rng.Intn(5) == 0 {
+			sc.SlowMS = 700
+			sc.StopTimeoutMS = []int{0, -1000, 1, 30}[rng.Intn(4)]
+			sc.Remoting = false
+		}
 		for k := 0; k < 1+rng.Intn(3); k++ {
 			var s []string
 			for j := 0; j < 1+rng.Intn(4); j++ {
